@@ -155,6 +155,19 @@ fn count_sub(hay: &[u8], needle: &[u8]) -> usize {
 }
 
 const PROMPT: &str = "> ";
+/// one request in six uses a prompt of two rows (the repaint after a message must not reach back
+/// into the rows of the message)
+fn prompt_of(seed: u64) -> &'static str {
+    if seed % 6 == 5 {
+        "db [main]\n> "
+    } else {
+        PROMPT
+    }
+}
+/// the prompt as it appears in the output stream (OPOST stays on: LF is sent as CR LF)
+fn prompt_stream(seed: u64) -> Vec<u8> {
+    prompt_of(seed).replace('\n', "\r\n").into_bytes()
+}
 
 struct Run {
     pty: Pty,
@@ -249,6 +262,7 @@ fn run(req: &Req, raw: bool) -> Option<String> {
     let (res_tx, res_rx) = mpsc::channel::<String>();
     let n = req.n;
     let disp2 = dispatched.clone();
+    let prompt = prompt_of(req.seed);
     let ed_handle = std::thread::spawn(move || {
         let cfg = Config::builder().edit_mode(EditMode::Emacs).build();
         let mut ed: Editor<(), DefaultHistory> = match Editor::with_config(cfg) {
@@ -261,7 +275,7 @@ fn run(req: &Req, raw: bool) -> Option<String> {
         let printers: Vec<_> = (0..n).filter_map(|_| ed.create_external_printer().ok()).collect();
         let _ = setup_tx.send((gettid(), printers));
         while let Ok(EdCmd::Read) = cmd_rx.recv() {
-            let r = std::panic::catch_unwind(std::panic::AssertUnwindSafe(|| ed.readline(PROMPT)));
+            let r = std::panic::catch_unwind(std::panic::AssertUnwindSafe(|| ed.readline(prompt)));
             let s = match r {
                 Err(_) => "panic".to_string(),
                 Ok(Ok(l)) => enc_text(&l),
@@ -381,7 +395,7 @@ fn run(req: &Req, raw: bool) -> Option<String> {
     if raw {
         return Some(format!("{:?}", String::from_utf8_lossy(&r.out)));
     }
-    Some(render(&r.out, &r.marks, &texts, &r.results))
+    Some(render(&r.out, &r.marks, &texts, &r.results, req.seed))
 }
 
 fn starts_with_at(hay: &[u8], i: usize, needle: &[u8]) -> bool {
@@ -419,11 +433,12 @@ fn message_at(out: &[u8], i: usize) -> Option<(usize, usize, usize)> {
 }
 
 /// Reduces the output stream to events and merges them with the main thread's marks.
-fn render(out: &[u8], marks: &[(usize, String)], texts: &[(usize, usize, bool)], results: &[String]) -> String {
+fn render(out: &[u8], marks: &[(usize, String)], texts: &[(usize, usize, bool)], results: &[String], seed: u64) -> String {
     let mut evs: Vec<(usize, String)> = vec![];
     let mut i = 0;
     let mut await_prompt = false;
-    let first_draw: Vec<u8> = [b"\r\x1b[K", PROMPT.as_bytes()].concat();
+    let pstream = prompt_stream(seed);
+    let first_draw: Vec<u8> = [&b"\r\x1b[K"[..], &pstream[..]].concat();
     // stream intervals during which the read is known to wait inside a sub-loop (digit argument,
     // incremental search): from the first quiescence seen after the key that starts the loop to the
     // next key.  A message shown there (the unchanged code shows none: D21) must be followed by a
@@ -477,7 +492,7 @@ fn render(out: &[u8], marks: &[(usize, String)], texts: &[(usize, usize, bool)],
                             || starts_with_at(out, end + 6, b"(reverse-i-search)")
                             || starts_with_at(out, end + 6, b"(failed reverse-i-search)")
                     } else {
-                        starts_with_at(out, end + 6, PROMPT.as_bytes())
+                        starts_with_at(out, end + 6, &pstream)
                     }
             } else {
                 !nl || brk
